@@ -14,6 +14,11 @@ CHECKS = {
   technique="runtime monitoring: encode/decode round-trip differ over parser-produced statements + decoder totality under panic guard, EOF-budget reader and sync.Pool poisoning, in crash-isolated workers",
   text="Every statement (top-level and nested) of the seed and forced corpora is encoded and decoded by the real codec and compared structurally; every valid encoding is truncated at every length, bit-flipped, byte-swept, length-rewritten, spliced and randomly overwritten and each mutant is decoded (Decode and plugin.ReadLinterRequest) under five pool poisons. Held on the executions observed only.",
   note="Trusts astcmp (reflection walk ignoring Meta and the presentational flags listed in the evidence) and the bounded-progress restatement of decoder termination (<=64 reads past EOF, watchdog). Depth bombs are sized to the 64 MiB worker stack."),
+ "C16": dict(
+  category="fault_enumeration", design_ref="DESIGN.md §4 C16",
+  technique="runtime monitoring with syscall-level fault injection: strace -e inject (errno and SIGKILL at every recorded syscall touching the target), RLIMIT_FSIZE, size-limited tmpfs; byte-compare oracle against `falco fmt FILE`",
+  text="The real `falco fmt -w` binary (rebuilt from the tree) runs as an unprivileged user on 13 (quick) / ~37 (thorough) input classes; a fault-free strace trace enumerates every (syscall, occurrence) that touches the file, its descriptors or its directory, and each point is re-run with injected error codes and with SIGKILL at syscall entry, plus file-size limits and a full tmpfs. After every run the file must be its original bytes or exactly the `falco fmt` output, and the original bytes whenever the command reported failure. Exhaustive over the recorded points only.",
+  note="Trusts strace's injection (each faulted run is counted only if its own trace shows the fault on the intended syscall), the reference `falco fmt FILE` output of the same binary, and that durability after power loss is out of scope."),
 }
 
 NOT_APPLICABLE = {}
